@@ -58,8 +58,21 @@ func poolConfigs(prop string, thorough bool) (cfgs []poolCfg, depth int) {
 							c.A.Ctx = []string{"g,d1"}
 							c.A.Done = append(c.A.Done, "cde")
 							c.A.Adv = []int{2}
+							c.A.MaxSC = int(n) + 2
 						}
 						add(c)
+						if rf {
+							// non-initial roots: a key already bound; and additionally a
+							// refresh of its channel already in flight
+							b := c
+							b.Name += " root=bound"
+							b.Setup = append(append([]string{}, c.Setup...), "pick(bind,,L,g)", "done(0,ok:k1)")
+							add(b)
+							r := b
+							r.Name = c.Name + " root=bound+refreshing"
+							r.Setup = append(append([]string{}, b.Setup...), "pick(plain,,L,g,d1)", "adv(2)", "done(0,cde)")
+							add(r)
+						}
 					}
 				}
 			}
@@ -117,6 +130,12 @@ func poolConfigs(prop string, thorough bool) (cfgs []poolCfg, depth int) {
 			c.A = alphabet{States: "full", Shutdown: true, Unknown: true, Cmds: []string{"plain"}, Gens: []string{"L", "P", "O"},
 				Ctx: []string{"g,d1"}, Done: []string{"cde"}, Adv: []int{2}, MaxOpen: 1, MaxSC: int(n) + 1}
 			add(c)
+			// non-initial root: all READY and a refresh of channel 0 in flight
+			r := c
+			r.Name += " root=refreshing"
+			r.Setup = append(readyPool(int(n)), "pick(plain,,L,g,d1)", "adv(2)", "done(0,cde)")
+			r.A.MaxSC = int(n) + 2
+			add(r)
 		}
 	case "C05", "C06":
 		depth = 5
@@ -227,16 +246,17 @@ func poolConfigs(prop string, thorough bool) (cfgs []poolCfg, depth int) {
 
 func checkPool(c *vsched.RunCtx, prop string) {
 	cfgs, depth := poolConfigs(prop, c.Thorough())
+	for i := range cfgs {
+		cfgs[i].Prop = prop
+	}
 	if c.Replay != nil {
 		replayPool(c, prop, cfgs)
 		return
 	}
-	for _, cfg := range cfgs {
-		if !c.Mine() {
-			continue
-		}
-		cfg := cfg
-		res := vsched.BFS(vsched.BFSOpts{Name: "pool", Config: cfg.Name, Depth: depth, DevPerOp: 1, Deadline: c.Deadline},
+	idx, sub, nsub := c.Split(len(cfgs))
+	for _, i := range idx {
+		cfg := cfgs[i]
+		res := vsched.BFS(vsched.BFSOpts{Name: "pool", Config: cfg.Name, Depth: depth, DevPerOp: 1, Deadline: c.Deadline, Shard: sub, NShards: nsub},
 			func(s *vsched.Sched) vsched.World { return newPoolWorld(s, cfg) })
 		c.Add(res)
 	}
